@@ -12,6 +12,7 @@ import (
 	"os/exec"
 	"sort"
 	"strconv"
+	"strings"
 	"time"
 
 	astisub "github.com/asticode/go-astisub"
@@ -78,7 +79,7 @@ type wEvent struct {
 	First  bool   `json:"first"` // first write of (list, fmt) in this trace file
 	List   int    `json:"list"`
 	Fmt    string `json:"fmt"`
-	Kind   string `json:"kind"` // repeat | rebuilt | order | process | clock
+	Kind   string `json:"kind"` // repeat | rebuilt | after-option | order | process | clock
 	Keys   int    `json:"keys"` // how the list's maps are keyed (wCase.Keys)
 	Proc   int    `json:"proc"`
 	Digest string `json:"digest"`
@@ -165,6 +166,11 @@ func buildW(c wCase, r *rand.Rand) *astisub.Subtitles {
 		if k == 1 {
 			it.InlineStyle = nil // a cue without any inline attribute
 		}
+		if k == 2 {
+			// what the TTML reader returns for "<span>x</span><br/><span></span>": a trailing empty run and an empty last line
+			it.Lines[1].Items = append(it.Lines[1].Items, astisub.LineItem{Text: ""})
+			it.Lines = append(it.Lines, astisub.Line{Items: []astisub.LineItem{{Text: ""}}})
+		}
 		if len(c.Regions) > 0 {
 			it.Region = s.Regions[regionKey(c, k%len(c.Regions))]
 		}
@@ -178,7 +184,7 @@ func dig(b []byte) string { return fmt.Sprintf("%x", sha1.Sum(b))[:16] }
 func writeOnce(s *astisub.Subtitles, f string) (string, string, string) {
 	var buf bytes.Buffer
 	var err error
-	res, msg := run.Guard(20*time.Second, func() { err = writeDoc(f, s, &buf) })
+	res, msg := run.Guard(20*time.Second, func() { err = writeDoc(strings.TrimSuffix(f, "+dates"), s, &buf) })
 	if res == "ok" && err != nil {
 		res, msg = "err", err.Error()
 	}
@@ -284,16 +290,26 @@ func cmdWriters(args []string) error {
 			// the same list built again with another insertion order of the maps
 			s2 := buildW(c, r)
 			emit(list, f, "rebuilt", s2, project.Digest(s2))
+			if f == "ttml" {
+				// a writer called with options of its own leaves nothing behind: the next default write gives the same bytes
+				var sink bytes.Buffer
+				run.Guard(20*time.Second, func() { s2.WriteToTTML(&sink, astisub.WriteToTTMLWithIndentOption("\t")) })
+				emit(list, f, "after-option", s, orig)
+			}
 		}
 		if !c.Meta {
-			// no metadata: the STL dates come from the injectable clock, and from nothing else - the same list
-			// written under another injected clock, but with that clock's former date supplied as metadata, gives the
-			// same bytes
+			// metadata without dates: the STL dates come from the injectable clock, and from nothing else - the same
+			// list written under another injected clock, but with the first clock's date supplied as metadata, gives
+			// the same bytes (a register of its own, "stl+dates": a list with metadata denotes other GSI fields than one
+			// without)
+			s4 := buildW(c, r)
+			s4.Metadata = &astisub.Metadata{}
+			emit(list, "stl+dates", "clock-default-base", s4, project.Digest(s4))
 			s3 := buildW(c, r)
 			cd, rd := fixed, fixed
 			s3.Metadata = &astisub.Metadata{STLCreationDate: &cd, STLRevisionDate: &rd}
 			astisub.Now = func() time.Time { return fixed.Add(1000 * time.Hour) }
-			emit(list, "stl", "clock-default", s3, project.Digest(s3))
+			emit(list, "stl+dates", "clock-default", s3, project.Digest(s3))
 			astisub.Now = func() time.Time { return fixed }
 		}
 		if c.Meta {
